@@ -74,7 +74,8 @@ TCreate     == IsEvent("create") /\ Ev.pod \in Pods /\ Create(Ev.pod) /\ ObsOK
 
 AllocExpect(reqs, required) ==
   [feasible |-> Feasible(reqs, required),
-   candidates |-> [t \in DOMAIN reqs |-> IF t \in Types THEN Cands(t, reqs[t].req, required) ELSE {}]]
+   candidates |-> [t \in DOMAIN reqs |-> IF t \in Types THEN Cands(t, reqs[t].req, required) ELSE {}],
+   candidatesCountingDerived |-> [t \in DOMAIN reqs |-> IF t \in Types THEN CandsEff(t, reqs[t].req, required) ELSE {}]]
 TAlloc ==
   /\ IsEvent("alloc") /\ Ev.pod \in Pods
   /\ AllocInUniverse(Ev.result.alloc)
